@@ -1,3 +1,5 @@
+//go:build !skip_c02
+
 package main
 
 // C02 — on-demand TLS never issues or loads for names the policy does not permit.
@@ -111,7 +113,7 @@ type c02Env struct {
 
 const c02IssuerKey = "dbl"
 
-var errC02Denied = errors.New("policy says no")
+var c02ErrDenied = errors.New("policy says no")
 
 func (e *c02Env) noteName(n string) {
 	e.unsafeMap[certmagic.StorageKeys.Safe(n)] = n
@@ -199,8 +201,8 @@ func (e *c02Env) decision(ctx context.Context, name string) error {
 			return nil
 		}
 	}
-	e.b.Log.SetErr(seq, errC02Denied)
-	return errC02Denied
+	e.b.Log.SetErr(seq, c02ErrDenied)
+	return c02ErrDenied
 }
 
 func c02Validity(class string) (nb, na time.Time) {
@@ -282,7 +284,7 @@ func (e *c02Env) setPolicy(p c02Policy) {
 	}
 }
 
-func newC02Env(cs *c02Case) (*c02Env, error) {
+func c02NewEnv(cs *c02Case) (*c02Env, error) {
 	e := &c02Env{b: doubles.NewMemBackend(), ca: doubles.NewCA("harness CA"), opG: map[int]int64{}, parent: map[int64]int64{}, unsafeMap: map[string]string{}}
 	e.iss = &doubles.IssuerDouble{Key: c02IssuerKey, CA: e.ca, Log: e.b.Log, Inst: "i1"}
 	e.iss.Fail = func(n int, names []string) error {
@@ -407,6 +409,30 @@ type c02HsObs struct {
 	CacheIDs []int         `json:"cache"`
 	Store    [][2]any      `json:"store"`
 	Evals    int           `json:"evals_before"`
+	Hung     string        `json:"hung,omitempty"` // wait site the handshake goroutine is stuck in
+}
+
+// c02ErrHang ends the run after the case in which a handshake was found hanging.
+var c02ErrHang = errors.New("a handshake hangs; run ended after recording the case")
+
+// c02ProvablyHung: the goroutine is in the select of a wait site of handshake.go and no goroutine
+// spawned by the handshake code exists.
+func c02ProvablyHung(gid int64) string {
+	where := ""
+	for _, g := range hsutil.Dump() {
+		if g.SpawnedByCertmagicHandshake() {
+			return ""
+		}
+		if g.ID == gid && g.State == "select" {
+			for _, f := range g.Funcs {
+				if !strings.HasPrefix(f, "runtime.") {
+					where = c13WaitFuncs[f]
+					break
+				}
+			}
+		}
+	}
+	return where
 }
 
 func (e *c02Env) nameOfKeyLocked(key string) (string, string, bool) {
@@ -546,8 +572,10 @@ func (e *c02Env) handshake(op c02Op) (*c02HsObs, error) {
 		gid    int64
 	}
 	ch := make(chan ret, 1)
+	gidCh := make(chan int64, 1)
 	go func() {
 		gid := hsutil.ID()
+		gidCh <- gid
 		ctx, cancel := context.WithTimeout(context.Background(), 60*time.Second)
 		defer cancel()
 		cert, err := e.cfg.GetCertificateWithContext(ctx, hello)
@@ -566,12 +594,41 @@ func (e *c02Env) handshake(op c02Op) (*c02HsObs, error) {
 		ch <- r
 	}()
 	var r ret
-	select {
-	case r = <-ch:
-	case <-time.After(90 * time.Second):
-		return nil, fmt.Errorf("handshake for %q did not return within 90s", op.SNI)
+	hsGid := <-gidCh
+	began := time.Now()
+	hung := ""
+wait:
+	for {
+		select {
+		case r = <-ch:
+			break wait
+		case <-time.After(20 * time.Millisecond):
+		}
+		// Only one handshake runs at a time here, so a handshake goroutine that sits in the select
+		// of one of the three wait sites of handshake.go while no goroutine spawned by the handshake
+		// code is alive waits for a channel nobody will close (in practice: the one it registered
+		// itself): a provable hang until the 2-minute time-out. It is recorded as a "selfwait" effect
+		// (never waited out); the run ends after this case, because the goroutine left behind keeps
+		// its package-level registration for the name.
+		if time.Since(began) > 90*time.Second {
+			return nil, fmt.Errorf("handshake for %q did not return within 90s", op.SNI)
+		}
+		if where := c02ProvablyHung(hsGid); where != "" {
+			// confirm on a second snapshot (the state must be stable)
+			time.Sleep(5 * time.Millisecond)
+			if c02ProvablyHung(hsGid) == where {
+				select {
+				case r = <-ch:
+					break wait
+				default:
+				}
+				hung = where
+				r = ret{err: fmt.Errorf("harness: handshake goroutine hangs in %s (nobody left to release it)", where), gid: hsGid}
+				break wait
+			}
+		}
 	}
-	if !c02WaitQuiet() {
+	if hung == "" && !c02WaitQuiet() {
 		return nil, fmt.Errorf("background goroutines of the handshake for %q still alive after 30s", op.SNI)
 	}
 	// a bundle that was read but whose existence was never checked vanishes now (same final state)
@@ -583,6 +640,14 @@ func (e *c02Env) handshake(op c02Op) (*c02HsObs, error) {
 	e.mu.Unlock()
 	all := e.b.Log.Snapshot()
 	obs.Gs = e.project(all[off:], r.gid)
+	if hung != "" {
+		n := ""
+		if obs.Name != nil {
+			n = *obs.Name
+		}
+		obs.Gs[0] = append(obs.Gs[0], c02Effect{Kind: "selfwait", Name: n})
+		obs.Hung = hung
+	}
 	switch {
 	case r.err != nil:
 		obs.Res, obs.Err = "err", r.err.Error()
@@ -642,7 +707,7 @@ func c02EncPolicy(e *emit.Enc, p c02Policy, base int) {
 	}
 }
 
-var c02EffTag = map[string]int{"decision": 0, "exists": 2, "load": 3, "meta": 4, "issue": 5}
+var c02EffTag = map[string]int{"decision": 0, "exists": 2, "load": 3, "meta": 4, "issue": 5, "selfwait": 7}
 
 func c02EncEffects(e *emit.Enc, gs [][]c02Effect) {
 	e.Len(len(gs))
@@ -676,7 +741,7 @@ func c02SpaceTable(e *emit.Enc, strs ...string) {
 
 // runCase executes one history and emits it as one case.
 func c02RunCase(w *emit.Writer, cs *c02Case, desc map[string]any) error {
-	env, err := newC02Env(cs)
+	env, err := c02NewEnv(cs)
 	if err != nil {
 		return err
 	}
@@ -716,14 +781,22 @@ func c02RunCase(w *emit.Writer, cs *c02Case, desc map[string]any) error {
 	body.Int(len(cs.Certs) + 1) // next certificate identity
 	var allNames []string
 	nontrivial := false
-	body.Len(len(cs.Ops))
+	world := body
+	body = &emit.Enc{} // the operations (their number is known only at the end: a hang ends the case)
+	nOps := 0
+	hangSeen := false
 	for _, op := range cs.Ops {
+		if hangSeen {
+			break
+		}
+		nOps++
 		switch op.Kind {
 		case "hs":
 			o, err := env.handshake(op)
 			if err != nil {
 				return err
 			}
+			hangSeen = o.Hung != ""
 			obsAll = append(obsAll, o)
 			body.Int(0)
 			if o.Name != nil {
@@ -817,9 +890,17 @@ func c02RunCase(w *emit.Writer, cs *c02Case, desc map[string]any) error {
 		allNames = append(allNames, sp.Names...)
 	}
 	c02SpaceTable(enc, allNames...)
-	wire := enc.String() + " " + body.String()
+	world.Len(nOps)
+	wire := enc.String() + " " + world.String()
+	if nOps > 0 {
+		wire += " " + body.String()
+	}
 	kb, _ := json.Marshal(cs)
 	w.Add(emit.Case{Desc: desc, In: cs, Obs: obsAll, Wire: wire, Nontrivial: nontrivial, Key: string(kb)})
+	if hangSeen {
+		w.Hist("hang=true")
+		return c02ErrHang
+	}
 	return nil
 }
 
@@ -865,11 +946,19 @@ func c02Policies(name string) map[string]c02Policy {
 }
 
 func runC02(tier string, seed int64, outdir string, replay string) error {
+	err := c02Run(tier, seed, outdir, replay)
+	if errors.Is(err, c02ErrHang) {
+		return nil // the case is recorded (model and implementation disagree on it); nothing can run after it
+	}
+	return err
+}
+
+func c02Run(tier string, seed int64, outdir string, replay string) error {
 	w := emit.NewWriter(outdir, "C02", tier, seed)
 	defer w.Close()
 	w.Meta.Rule = "distinct histories in which at least one handshake caused an observable effect (decision call, storage read of a bundle, issuer call), plus distinct strings for SubjectQualifiesForCert"
+	w.Meta.Oracles = []emit.OracleCheck{}
 	rr := rand.New(rand.NewSource(seed))
-	_ = rr
 	if replay != "" {
 		rc, err := loadReplay(replay)
 		if err != nil {
@@ -895,6 +984,9 @@ func runC02(tier string, seed int64, outdir string, replay string) error {
 		}
 		if err := c02RunCase(w, cs, desc); err != nil {
 			kb, _ := json.Marshal(cs)
+			if errors.Is(err, c02ErrHang) {
+				return err
+			}
 			return fmt.Errorf("%v: case %s", err, kb)
 		}
 		return nil
@@ -902,6 +994,23 @@ func runC02(tier string, seed int64, outdir string, replay string) error {
 	const N = "foo.example"
 	pols := c02Policies(N)
 	polNames := emit.SortedKeys(pols)
+
+	// ---- corpus: witnesses of the fixed finding C13-maintenance-failure-obtain as C02 sees it (class
+	// loaded-maintenance-fails): an expired certificate in storage only; the renewal run by the
+	// maintenance of the just-loaded certificate is denied (decision function: yes, then no) or the
+	// issuer fails. Before the fix the handshake went on to obtainOnDemandCertificate: a second read
+	// of the bundle after the denial, and a 2-minute wait on its own obtain channel.
+	for _, pn := range []string{"decision-flip", "decision-yes", "allow-in", "allow-empty"} {
+		for _, ok := range []bool{false, true} {
+			if ok && pn != "decision-flip" {
+				continue
+			}
+			cs := c02Single(pols[pn], 0, []c02CertSpec{{Names: []string{N}, Class: "expired", Managed: true, Stored: true}}, N, ok)
+			if err := run(cs, map[string]any{"class": "loaded-maintenance-fails", "policy": pn, "cert": "expired", "issue_ok": ok}); err != nil {
+				return err
+			}
+		}
+	}
 
 	// ---- corpus: the witnesses of the fixed finding (class cached-due-storage-missing) ----
 	// cached managed wildcard certificate, due, deleted from storage, policy now denies the name
